@@ -207,6 +207,8 @@ def run_pool(ctx):
         ctx.cov["trace_events"] = ctx.cov.get("trace_events", 0) + events
     if pid == "C21" and not ctx.violations and not os.environ.get("VERIF_DEV_SKIP_MC"):
         agg_system(ctx)
+        if not ctx.quick and not ctx.violations and not ctx.replay:
+            end_to_end(ctx)
     ctx.cov["distinct_nontrivial"] = len(distinct)
     ctx.cov["rule"] = ("behaviours: TLC -simulate over MC_PoolSim (12-entry palette, 3-5 limit settings) replayed call by "
                        "call with full state comparison; histories: seeded random real-pool runs (6-12 keys, 16 "
@@ -258,6 +260,62 @@ def agg_system(ctx):
             ctx.violation(f"real pool disagrees with AggSystem.tla (aggregation loop) at step {mm['step']} ({mm['call']}): {mm['why']}",
                           {"engine": "pool-replay", "behaviour": json.loads(ln), "mismatch": mm})
     ctx.cov["aggregation_loop_behaviours_replayed"] = nok
+
+
+def end_to_end(ctx):
+    """Beyond the listed properties (thorough tier of C21): EndToEnd.tla - the whole pipeline as one system.  TLC checks the
+    composed model exhaustively (AggSystem's invariants + no double settlement + conservation over the compositions); simulated
+    behaviours are then replayed on the REAL PublicBatchAggregator with real proofs at every layer (leaf proofs of deposits in
+    one tree -> real private batches -> push_proof -> snapshot_batch -> ProvingContext::prove_batch -> verify -> the settled set
+    read from the aggregated proof's public inputs -> evict_settled)."""
+    res = core.run_tlc(ctx, "EndToEnd", "EndToEnd.cfg", workers=6, timeout=3000, coverage=False)
+    if res["violated"]:
+        ctx.violation(f"TLC: {res['violated']} violated in EndToEnd (deposits -> private batches -> pool -> public batch -> chain -> eviction)",
+                      {"engine": "tlc", "tlc": core.tlc_counterexample(res["out"])})
+        return
+    mut = core.run_tlc(ctx, "EndToEnd", "EndToEnd_mutChain.cfg", workers=4, timeout=1200, coverage=False, expect_violation=True, quiet=True)
+    if not mut["violated"]:
+        raise core.ToolError("vacuity: EndToEnd's invariants hold even for a chain that settles a nullifier twice")
+    r = core.run_tlc(ctx, "EndToEnd", "EndToEnd_sim.cfg", workers=1, simulate=12, depth=20, coverage=False, timeout=900)
+    if r["violated"]:
+        ctx.violation(f"TLC simulation: {r['violated']} violated in EndToEnd", {"engine": "tlc", "tlc": core.tlc_counterexample(r["out"])})
+        return
+    bs = sorted((json.loads(x) for x in set(r["prints"].get("REPLAY", []))), key=lambda b: -len(b["steps"]))
+    keep = []
+    for b in bs:
+        if not any(k["steps"][:len(b["steps"])] == b["steps"] for k in keep):
+            keep.append(b)
+    # prefer behaviours that close the loop (a proved batch lands and a sync follows)
+    def score(b):
+        ops = [s["call"]["op"] for s in b["steps"]]
+        lands = sum(1 for s in b["steps"] if s["call"]["op"] == "prove" and s["call"]["lands"])
+        two = sum(1 for s in b["steps"] if s["call"]["op"] == "prove" and len(s["call"]["ids"]) == 2)
+        return (min(lands, 2) + min(two, 1) + (1 if "evict_settled" in ops else 0), -ops.count("prove"))
+    keep.sort(key=score, reverse=True)
+    keep = keep[:5]
+    if not keep or score(keep[0])[0] < 2:
+        raise core.ToolError("EndToEnd simulation produced no behaviour in which a proved batch lands and is synced")
+    inp = ctx.workdir / "e2e_in.ndjson"
+    inp.write_text("\n".join(json.dumps(k) for k in keep) + "\n")
+    out = ctx.workdir / "e2e_out.ndjson"
+    core.vh(ctx, ["e2e-replay", inp, out, ctx.workdir / "e2e_scratch"], timeout=6000)
+    rows = core.jsonl_read(out)
+    ctx.cov["end_to_end_setup"] = rows[0].get("setup")
+    nok = proved = 0
+    for rr in rows[1:]:
+        ctx.cov["evaluations"] += 1
+        proved += rr["proved"]
+        if rr["problems"]:
+            ctx.violation(f"the real pipeline (real leaf proofs -> private batches -> PublicBatchAggregator -> aggregated proof -> settlement) "
+                          f"disagrees with EndToEnd.tla: {rr['problems'][0]}",
+                          {"engine": "e2e-replay", "behaviour": keep[rr["behaviour"]], "problems": rr["problems"]})
+        else:
+            nok += 1
+            ctx.cov["traces_validated_against_impl"] += 1
+    if proved == 0:
+        raise core.ToolError("vacuity: no batch was really proved in the end-to-end replay")
+    ctx.cov["end_to_end_behaviours_replayed"] = nok
+    ctx.cov["end_to_end_public_batches_really_proved"] = proved
 
 
 @register("C19", "C20", "C21", "C22")
